@@ -163,12 +163,46 @@ def configs(tier, d, seed):
     return out
 
 
+def audit_case(item):
+    """All randomness must come from the generator that was passed in: run the real chain driver / main loop
+    under the enumerating generator with numpy's and Python's global random state forbidden."""
+    from mc.checks import c19
+    from mc.enumrng import explore
+
+    cfg, policy = item
+    run = c19.make_run(cfg)
+    out = {"item": item, "n": 0, "escapes": []}
+    for p, (probs, ne), choices, ndev in explore(run, policy=policy, max_deviations=(1 if cfg.get("start") is not None else 0), max_execs=60):
+        out["n"] += 1
+        for pr in probs:
+            if "UnmodelledRandomness" in pr and len(out["escapes"]) < 2:
+                out["escapes"].append({"problem": pr, "choices": choices})
+    return out
+
+
+def audit_items(tier):
+    from mc import oracle
+
+    items = []
+    n_states = len(oracle.all_states(3, outliers=True))
+    for si in range(n_states):
+        for k, prop in enumerate(("bootstrap", "semi-adapted", "fully-adapted")):
+            if tier == "quick" and (si + k) % 3:
+                continue
+            items.append((dict(n=3, proposal=prop, N=2, threshold=0.5, outlier_prob=0.3, subtree_prob=(1.0 if si % 2 else 0.0), iters=2, conc_update=True, start=si), "likely"))
+    for prop in ("bootstrap", "semi-adapted", "fully-adapted"):
+        for op in (0.0, 0.5):
+            items.append((dict(n=2, proposal=prop, N=2, outlier_prob=op, subtree_prob=0.5, iters=2, burnin=2, conc_update=True), "first"))
+            items.append((dict(n=2, proposal=prop, N=2, outlier_prob=op, subtree_prob=0.5, iters=2, burnin=2, conc_update=True), "unlikely"))
+    return items
+
+
 def main(tier, seed):
     chk = Check("C18", tier, seed)
     chk.rule = ("schedule classes = terminal states of the TLC state graph of mc/tla/ChainPool.tla for K=2 and K=3 chains (per worker: chains completed in order; global "
                 "completion order), cross-checked against an independent Python enumeration; EVERY (chain, warm-history) pair replayed in a fresh process through the real "
                 "run() wiring and compared bit-exactly (trees, alpha, log_p_one) with the cold run of that chain; EVERY completion order through the real output writer; "
-                "real spawn-pool runs under PYTHONHASHSEED in {0,1,2,seeded} x CPU affinity {1 core, all}; non-trivial = a pair with a non-empty warm history")
+                "real spawn-pool runs under PYTHONHASHSEED in {0,1,2,seeded} x CPU affinity {1 core, all}; the real pool steered into worker re-use; a randomness audit (main loop from every tree over 3 data points under the enumerating generator with global random state forbidden); non-trivial = a pair with a non-empty warm history")
     chk.assumptions = ["OS scheduling is modelled at the granularity at which chains can interact at all: which chains a worker process ran before, and the completion order",
                        "hash seeds and option sets are a finite set; short runs (12-25 iterations)", "a warm worker is emulated by running the earlier chains in the same fresh process through the same submitted callables"]
     d = tempfile.mkdtemp(prefix="c18_", dir="/dev/shm" if os.path.isdir("/dev/shm") else None)
@@ -183,6 +217,16 @@ def main(tier, seed):
             chk.note("tlc_K%d" % K, {"distinct_states": nstates, "edges": nedges, "schedule_classes": len(cl), "warm_pairs": len(warm_pairs(cl))})
             if cl != py:
                 chk.violation({"sub": "model"}, {"problem": "TLC schedule classes differ from the independent enumeration", "only_tlc": sorted(cl - py)[:3], "only_python": sorted(py - cl)[:3]}, {"K": K})
+        # randomness audit (in-process, exhaustive over start trees): nothing may bypass the passed generator
+        from mc.harness import pool_imap
+
+        n_audit = 0
+        for r in pool_imap(audit_case, audit_items(tier), chunksize=2):
+            n_audit += r["n"]
+            chk.traces_validated += r["n"]
+            for e in r["escapes"]:
+                chk.violation({"sub": "randomness-escapes-the-seeded-generator"}, {"config": r["item"][0], "problem": e["problem"]}, {"audit": r["item"][0], "choices": e["choices"]})
+        chk.note("randomness_audit_runs", n_audit)
         cfgs = configs(tier, d, seed)
         jobs = []
         for ci, cfg in enumerate(cfgs):
